@@ -6,6 +6,7 @@ with the real result; independently M-REG asserts the frame condition on the liv
 at every add_alter_to_table / add_index_to_table return.
 """
 import copy
+import itertools
 import re
 
 from vf.monitor.hooks import STATE
@@ -19,7 +20,10 @@ RULE = ("cases = histories: 1..4 CREATE TABLE (same name in 2-3 schemas and with
         "PRIMARY KEY, CHECK, DEFAULT .. FOR a[, b], FOREIGN KEY 1/n columns, CREATE [UNIQUE] INDEX with ASC/DESC/asc/desc), table "
         "and column references re-spelled (upper, lower, \"..\", [..], `..`); exhaustive (alter kind x reference spelling x which "
         "twin) first, then seeded random; every history is also run with one extra statement naming an undefined (schema, table), "
-        "which must raise. Non-trivial = >= 1 ALTER/INDEX on a script with >= 2 tables or a re-spelled reference; distinct = text.")
+        "which must raise. Non-trivial = >= 1 ALTER/INDEX on a script with >= 2 tables or a re-spelled reference; distinct = text."
+        " Added after seeded defects: index-only columns called like ALTER keywords, IF EXISTS / ONLY noise words, spelled rename targets, every 4th history also in a dialect mode, "
+        "every ordered triple of statement kinds on one 2-3 column table (quick: 8 kinds, thorough: all 15; more column draws when a kind repeats), multi-column foreign keys whose "
+        "referenced columns are called like the key columns in another order.")
 ASSUMPTIONS = ["columns named in ADD UNIQUE / ADD DEFAULT .. FOR / index lists use the column's current spelling (the property claims quoting/case-insensitive matching for tables, and DROP/RENAME/MODIFY COLUMN)",
                "alter.columns records are checked by number (an added column is the same object as the table column, so a later RENAME shows in it) plus the full FK records",
                "ADD column only with name/type/size/DEFAULT"]
@@ -147,12 +151,16 @@ class Model:
             named = rng.random() < 0.6
             rs = rng.choice([None, "zz"])
             act = rng.choice([None, "CASCADE"])
+            refcols = ["k%d" % j for j in range(len(cs))]
+            if len(cs) > 1 and rng.random() < 0.4:
+                # the referenced columns are called like the key columns, in another order (pairs are made by position, not by name)
+                refcols = rng.choice([cs[1:] + cs[:1], [cs[1], "k9"] + cs[2:], ["k9", cs[0]] + cs[2:]])
             for j, c in enumerate(cs):
                 a.setdefault("columns", []).append({"name": c, "constraint_name": "fk%d" % k if named else None,
                                                     "references": {"table": "p", "schema": rs, "on_delete": act, "on_update": None,
-                                                                   "deferrable_initially": None, "column": "k%d" % j}})
+                                                                   "deferrable_initially": None, "column": refcols[j]}})
             return "ALTER TABLE %s ADD %sFOREIGN KEY (%s) REFERENCES %s (%s)%s;" % (
-                ref, "CONSTRAINT fk%d " % k if named else "", ", ".join(cs), qual(rs, "p"), ", ".join("k%d" % j for j in range(len(cs))),
+                ref, "CONSTRAINT fk%d " % k if named else "", ", ".join(cs), qual(rs, "p"), ", ".join(refcols),
                 " ON DELETE " + act if act else "")
         if kind in ("index", "uindex"):
             cs = rng.sample(names, rng.randint(1, min(3, len(names))))
@@ -172,12 +180,12 @@ TABLE_SETS = [
 ]
 
 
-def gen_history(rng, table_set=None, plan=None, styles="puldkbD"):
+def gen_history(rng, table_set=None, plan=None, styles="puldkbD", ncols=None):
     m = Model()
     stmts = []
     tset = table_set or rng.choice(TABLE_SETS)
     for schema, name in tset:
-        stmts.append(m.create(schema, name, ["a", "b", "c", "d"][:rng.randint(2, 4)],
+        stmts.append(m.create(schema, name, ["a", "b", "c", "d"][:ncols or rng.randint(2, 4)],
                               index_only=rng.choice(["rename", "modify", "column", "Modify", "COLUMN"]) if rng.random() < 0.25 else None))
     n_alter = 0
     respelled = False
@@ -320,6 +328,19 @@ def run_shard(ctx):
                     case["gen"] = "exhaustive"
                     check_case(ctx, case)
                     ctx.obs["exhaustive_cases"] += 1
+    # every ordered triple of statement kinds on ONE small table (what an ALTER does may not depend on what earlier ALTERs of the same
+    # table did to other columns: ADD UNIQUE (x); MODIFY x; ADD UNIQUE (y) ...), several draws of the columns each
+    focus = ["uniq1", "modify", "rename", "drop", "add", "default", "pk", "fk_n"] if ctx.tier == "quick" else KINDS
+    for k1, k2, k3 in itertools.product(focus, focus, focus):
+        i += 1
+        if not ctx.mine(i):
+            continue
+        reps = (4 if ctx.tier == "quick" else 3) * (1 if len({k1, k2, k3}) == 3 else 4)     # a kind applied twice: more draws of its columns
+        for rep in range(reps):
+            case = gen_history(ctx.sub_rng("tri", i * 16 + rep), [(None, "t")], [(k1, 0), (k2, 0), (k3, 0)], styles="p", ncols=2 + rep % 2)
+            case["gen"] = "triple"
+            check_case(ctx, case)
+            ctx.obs["kind_triples"] += 1
     for j in range(ctx.budget(1500, 50000)):
         case = gen_history(rng)
         case["gen"] = "random"
